@@ -38,7 +38,7 @@ func init() {
 			&vexplore.Scenario{Name: "close-vs-dial-listen", Mode: "sched", Bound: b + 1, Reset: kit.ResetGlobals, Body: closeVsSetup},
 			&vexplore.Scenario{Name: "inproc-dial-waiting-vs-listener-close", Mode: "sched", Bound: b, Reset: kit.ResetGlobals, Body: inprocDialWaiting},
 			&vexplore.Scenario{Name: fmt.Sprintf("core-objects-hist-D%d", d), Mode: "hist", Reset: kit.ResetGlobals, Body: func() { coreHist(d) },
-				NeedCounters: []string{"census-clean", "closed-listener", "closed-dialer", "closed-pipe", "redial-pending-at-close", "refused-pipe"}},
+				NeedCounters: []string{"census-clean", "closed-listener", "closed-dialer", "closed-pipe", "redial-pending-at-close", "refused-pipe", "closed-in-attached-callback"}},
 			&vexplore.Scenario{Name: "close-context-only", Mode: "enum", Reset: kit.ResetGlobals, Body: closeContextOnly},
 			&vexplore.Scenario{Name: "tcp-close-vs-incoming-connection", Mode: "sched", Bound: b + 1, Reset: kit.ResetGlobals, Body: tcpCloseVsAccept},
 			&vexplore.Scenario{Name: "close-of-a-listener-that-never-owned-the-address", Mode: "enum", Reset: kit.ResetGlobals, Body: closeLoserListener,
@@ -346,6 +346,7 @@ func coreHist(depth int) {
 	var d mangos.Dialer
 	var pipes []mangos.Pipe
 	hookClose := false
+	hookCloseAttached := false
 	s.SetPipeEventHook(func(ev mangos.PipeEvent, p mangos.Pipe) {
 		if ev == mangos.PipeEventAttaching && hookClose {
 			hookClose = false
@@ -353,6 +354,13 @@ func coreHist(depth int) {
 			kit.Count("refused-pipe")
 		}
 		if ev == mangos.PipeEventAttached {
+			if hookCloseAttached {
+				// the hook closes the pipe from within its own Attached callback
+				hookCloseAttached = false
+				_ = p.Close()
+				kit.Count("closed-in-attached-callback")
+				return
+			}
 			pipes = append(pipes, p)
 		}
 	})
@@ -373,6 +381,12 @@ func coreHist(depth int) {
 			if lep.Listening() {
 				evs = append(evs, kit.Event{Name: "peer-connects", Run: func() { lep.Connect() }})
 				evs = append(evs, kit.Event{Name: "peer-connects-hook-closes", Run: func() { hookClose = true; lep.Connect() }})
+				evs = append(evs, kit.Event{Name: "peer-connects-hook-closes-when-attached", Run: func() {
+					hookCloseAttached = true
+					lep.Connect()
+					kit.Quiesce()
+					hookCloseAttached = false
+				}})
 				evs = append(evs, kit.Event{Name: "close-listener", Run: func() {
 					kit.Must("Listener.Close", func() { _ = l.Close() })
 					kit.Count("closed-listener")
